@@ -20,11 +20,11 @@ Print Assumptions C15_struct_fields_covered.
         (except the two listed omissions of the unrepaired reset) ---- *)
 Theorem C15_writers_discipline :
   settings_writers_ok parser_class parser_setters parser_writers = true /\
-  runstate_reset_ok parser_class parser_reinit_name [] parser_writers = true /\
+  runstate_reset_ok parser_class parser_reinit_name [] parser_writers_via_static = true /\
   settings_writers_ok conv_w2x_class conv_w2x_setters conv_w2x_writers = true /\
   settings_writers_ok conv_x2w_class conv_x2w_setters conv_x2w_writers = true /\
   settings_writers_ok encoder_class encoder_setters encoder_writers = true /\
-  runstate_reset_ok encoder_class encoder_reset_name encoder_known_unreset encoder_writers = true.
+  runstate_reset_ok encoder_class encoder_reset_name encoder_known_unreset encoder_writers_via_static = true.
 Proof.
   exact (conj parser_settings_writers (conj parser_reinit_covers_runstate (conj conv_w2x_settings_writers
         (conj conv_x2w_settings_writers (conj encoder_settings_writers encoder_reset_covers_runstate))))).
